@@ -100,3 +100,17 @@ theorem reduceModel_rel (RelL RelV : T → T' → Prop) (O : ReduceOps T) (O' : 
 
 end
 end Cfavml
+
+namespace Cfavml
+/-- the model only looks at the lane / tail functions at indices below `dims` (and the fold at the `L` lanes) -/
+theorem reduceModel_congr {T : Type} (O O' : ReduceOps T) (L dims : Nat) (hL : 0 < L)
+    (he : O.e = O'.e) (hroll : O.roll = O'.roll) (hfold : O.hfold = O'.hfold)
+    (hloc : ∀ f g : Nat → T, (∀ k, k < L → f k = g k) → O'.hfold f = O'.hfold g)
+    (hlane : ∀ x i, i < dims → O.lane x i = O'.lane x i) (htail : ∀ x i, i < dims → O.tail x i = O'.tail x i) :
+    reduceModel O L dims = reduceModel O' L dims :=
+  reduceModel_rel (fun x y => x = y) (fun x y => x = y) O O' L dims hL he
+    (fun x y i hi h => by rw [h]; exact hlane y i hi)
+    (fun x y x' y' h1 h2 => by rw [h1, h2, hroll])
+    (fun f f' h => by rw [hfold]; exact hloc f f' h)
+    (fun x y i hi h => by rw [h]; exact htail y i hi)
+end Cfavml
